@@ -27,12 +27,15 @@ SEAM 4 (C26 over the real `Deps.newCode`): `startup_real_eq`, `startup_real_tota
 SEAM 1 (C03 over the real code model): `lookup_exact`, `code_view_is_lifting`, `emulator_refines`,
         `emulator_refines_after_startup`.
 SEAM 2 (C22 over the real code model and the real emulator): `memory_coherence`, `real_emulator_lawful`,
-        `step_never_panics_is_false`, `session_never_panics_real`, `session_never_panics_after_startup`,
-        `session_panics_only_out_of_domain`, `view_prints_real`, `session_invariants`,
-        `ui_listing_reflects_real_code`, `ui_emulator_runs_on_current_code`.
+        `step_at_the_top_is_an_error`, `session_never_panics_real`, `session_never_panics_after_startup`,
+        `view_prints_real`, `session_invariants`, `ui_listing_reflects_real_code`,
+        `ui_emulator_runs_on_current_code`.  All of them are about the emulator AS IT IS: since the repair of F45
+        (`Step` returns an error when an access leaves the address space) `Emulator.step` never panics from a good
+        state (C03 `never_panics_step`, unconditional in the accesses), so the former "scoped" emulator, the
+        counterexample `step_never_panics_is_false` and the escape clause `session_panics_only_out_of_domain`
+        (`SessionOOD`) are gone.
         More vocabulary: `ofMem m` the `MemView.Mem` of a stack of memories; `ESt` the emulator object;
-        `emuOps honest bs cv` the emulator parameter (`honest = false`: SCOPED — a step that leaves the domain of
-        C14 is the error of `Step`); `EGood`; `paramsAt`; `RUI`, `realSession`; `SessionOOD`.
+        `emuOps bs cv` the emulator parameter; `EGood`; `paramsAt`; `RUI`, `realSession`.
 SEAM 3 (C23/C31 over the real code model): `real_ops_lawful`, `real_step_tracks`, `listing_reflects_real_code`,
         `rejected_changes_nothing_real`, `navigation_lands_real`, `entrypoint_lands_real`, `noTop_real`.
         More vocabulary: `listingOf info c` the `Listing.Code` a `Deps.Code` shows; `opsAt info c` the code
@@ -321,69 +324,60 @@ theorem memory_coherence (m : Overlay.Mem) (hinv : m.Inv) (hc : AllConst m) (hb 
   ofMem_coh m hinv hc hb
 
 open Mltwist.UI Mltwist.Lemmas.UI in
-/-- EVERY ASSUMPTION OF C22 ON THE EMULATOR (`EmuLawful`) is a theorem for the scoped instance over the real
-emulator model: `step_safe` (C03 `never_panics_step`), `ip_some` (C03/C04), `width_byte` (`expr.Width` is `uint8`),
-`regs_oneIP` (C18: the register file is a map), `mem_ok` (`memory_coherence`), `init_good`, `store_good` -/
+/-- EVERY ASSUMPTION OF C22 ON THE EMULATOR (`EmuLawful`) is a theorem for the real emulator model AS IT IS:
+`step_safe` (C03 `never_panics_step`: no panic whatever the instruction accesses — REPAIR F45), `ip_some` (C03/C04),
+`width_byte` (`expr.Width` is `uint8`), `regs_oneIP` (C18: the register file is a map), `mem_ok`
+(`memory_coherence`), `init_good`, `store_good` -/
 theorem real_emulator_lawful {image bs : List BytesMem.Block} (hnb : BytesMem.newBytes image = .ok bs)
-    (hbb : ∀ x, BytesSpec.ofBlocks bs x ≠ none → x + 1 < 2 ^ 64) (cv : CodeView) (hwf : CodeWF cv) :
-    EmuLawful (emuOps false bs cv) EGood :=
-  emu_lawful hnb hbb cv hwf
+    (hbb : ∀ x, BytesSpec.ofBlocks bs x ≠ none → x + 1 < 2 ^ 64) (cv : CodeView) (hwf : CodeWF cv)
+    (hsw : CodeSW cv) :
+    EmuLawful (emuOps bs cv) EGood :=
+  emu_lawful hnb hbb cv hwf hsw
 
-/-- … but NOT for the emulator as it is: `StepNeverPanics` is false.  `lb x3,-1(x0)` — a one-byte load from
-address `2^64 - 1` — makes `Emulator.step` panic from the state the tool starts with, for every provider (the
-interval `[2^64 - 1, 0)` reaches the interval tree).  The real `Emulator.Step` panics on the same program (NOTES:
-reproduced with the existing harness).  C03/C04/C14/C16 exclude this by their scope `addr + w < 2^64`. -/
-theorem step_never_panics_is_false :
+/-- the former counterexample (F45): `lb x3,-1(x0)` — a one-byte load from address `2^64 - 1` — made `Emulator.Step`
+panic from the state the tool starts with (the interval `[2^64 - 1, 0)` reached the interval tree), so
+`StepNeverPanics` was false for the emulator as it was.  After the repair the step is the access error: the step
+tree of the console is the error leaf and the emulator is still at `0x1000`. -/
+theorem step_at_the_top_is_an_error :
     (liftCode topBlocks).map (fun code =>
-      match step (provOf []) code (Emulator.new 4096 (toolState [] [])) with
-      | .panic _ => true
-      | _ => false) = some true :=
-  honest_panics
+      match stepTree ⟨code, Emulator.new 4096 (toolState [] [])⟩ stepFuel [] with
+      | .fail e => (match mustIP e.st with | .ok ip => some ip | .error _ => none)
+      | _ => none) = some (some 4096) :=
+  top_access_fails
 
 open Mltwist.UI Mltwist.Lemmas.UI in
-/-- C22 `session_never_panics` FOR THE INSTANTIATED UI (scoped emulator).  Code operations: the real dependency
+/-- C22 `session_never_panics` FOR THE INSTANTIATED UI, THE EMULATOR AS IT IS.  Code operations: the real dependency
 model; emulator: the real emulator model on `Overlay(Bytes(bs), Sparse)`; left as parameters: the regular
 expression library `rx`, the texts/bytes `info` of the instructions, and the input.  For every input the session
 ends by `quit`, at the end of the input or in a starving value prompt — never in a panic. -/
 theorem session_never_panics_real (info : Info) {bs : List BytesMem.Block} (rx : Str → Option (String → Bool))
     {d0 : Deps.Code} (henv : EnvOK bs d0) (hd : CInv d0) (inp : Input) :
-    realSession false info bs rx d0 inp = .exited ∨ (∃ a, realSession false info bs rx d0 inp = .eof a) ∨
-      realSession false info bs rx d0 inp = .hang :=
+    realSession info bs rx d0 inp = .exited ∨ (∃ a, realSession info bs rx d0 inp = .eof a) ∨
+      realSession info bs rx d0 inp = .hang :=
   realSession_safe info rx henv hd inp
 
 open Mltwist.UI Mltwist.Lemmas.UI in
 /-- … with every hypothesis about the program discharged by start-up (C26): for every argument count and every
 `debug/elf` view such that start-up reaches the UI, the session on the code and the byte memory that start-up
-built never panics (scoped emulator), whatever the regular expression library answers and whatever is typed -/
+built never panics, whatever the regular expression library answers and whatever is typed — also when the
+user steps the emulator into an access at the top of the address space (F45, repaired: an error message) -/
 theorem session_never_panics_after_startup (lim nargs : Nat) (v : Option Elf.View)
     (hv : ∀ w, v = some w → Elf.Spec.ViewOK w) (hui : Startup.run lim nargs v = .ui) :
     ∃ w code mem is c bs, v = some w ∧ Started lim w code mem is c bs ∧
       ∀ (info : Info) (rx : Str → Option (String → Bool)) (inp : Input),
-        realSession false info bs rx c inp = .exited ∨ (∃ a, realSession false info bs rx c inp = .eof a) ∨
-          realSession false info bs rx c inp = .hang := by
+        realSession info bs rx c inp = .exited ∨ (∃ a, realSession info bs rx c inp = .eof a) ∨
+          realSession info bs rx c inp = .hang := by
   obtain ⟨_, w, code, mem, is, c, bs, rfl, hs⟩ := run_ui_inv lim nargs v hv hui
   obtain ⟨henv, hc⟩ := envOK_of_started hs
   exact ⟨w, code, mem, is, c, bs, rfl, hs, fun info rx inp => realSession_safe info rx henv hc inp⟩
-
-open Mltwist.UI Mltwist.Lemmas.UI in
-/-- C22 FOR THE INSTANTIATED UI WITH THE EMULATOR AS IT IS: the session ends by `quit`, at the end of the input or
-in a starving value prompt — OR, at some call of `processCommand`, the user executes `step` in the emulator mode and
-(for the values typed at the prompts) the replay of that step performs a memory access outside the domain of C14,
-`addr + w ≥ 2^64` (`SessionOOD`).  That is the only way to a panic, and it is one (`step_never_panics_is_false`). -/
-theorem session_panics_only_out_of_domain (info : Info) {bs : List BytesMem.Block}
-    (rx : Str → Option (String → Bool)) {d0 : Deps.Code} (henv : EnvOK bs d0) (hd : CInv d0) (inp : Input) :
-    realSession true info bs rx d0 inp = .exited ∨ (∃ a, realSession true info bs rx d0 inp = .eof a) ∨
-      realSession true info bs rx d0 inp = .hang ∨
-      ∃ ui, UI.init (listingOf info d0) = some ui ∧ SessionOOD info bs rx ⟨d0, ui⟩ inp :=
-  realSession_honest info rx henv hd inp
 
 open Mltwist.UI Mltwist.Lemmas.UI in
 /-- every call of `processCommand` on the instantiated UI: no panic, every line answered, the invariants (C07's on
 the real code, the UI's) hold again, the real code keeps its instructions, edges and block ranges -/
 theorem line_answered_real (info : Info) {bs : List BytesMem.Block} (rx : Str → Option (String → Bool))
     {d0 : Deps.Code} (henv : EnvOK bs d0) (r : RUI) (hr : SInv d0 r) (inp : Input) :
-    uiStep (paramsAt false info bs rx r.deps) r.ui inp ≠ .panic ∧
-    ∀ a ui' rest, uiStep (paramsAt false info bs rx r.deps) r.ui inp = .cont a ui' rest →
+    uiStep (paramsAt info bs rx r.deps) r.ui inp ≠ .panic ∧
+    ∀ a ui' rest, uiStep (paramsAt info bs rx r.deps) r.ui inp = .cont a ui' rest →
       rest.length < inp.length ∧ (a = .skipped ↔ inp.head? = some []) ∧
       SInv d0 ⟨uiNextDeps r.deps r.ui inp, ui'⟩ := by
   obtain ⟨hs, hnext⟩ := real_step_safe info rx henv r hr inp
@@ -396,8 +390,8 @@ open Mltwist.UI Mltwist.Lemmas.UI in
 /-- the screen of every state of the composed system prints without a panic at every terminal height (C24/C32) -/
 theorem view_prints_real (info : Info) {bs : List BytesMem.Block} (rx : Str → Option (String → Bool))
     {d0 : Deps.Code} (henv : EnvOK bs d0) (r : RUI) (hr : SInv d0 r) (n : Nat) :
-    (renderTop (paramsAt false info bs rx r.deps).eops r.ui n).status ≠ .panic ∧
-      (renderTop (paramsAt false info bs rx r.deps).eops r.ui n).status ≠ .outOfFuel :=
+    (renderTop (paramsAt info bs rx r.deps).eops r.ui n).status ≠ .panic ∧
+      (renderTop (paramsAt info bs rx r.deps).eops r.ui n).status ≠ .outOfFuel :=
   renderTop_safe _ (paramsAt_lawful info rx henv hr.deps hr.same).2 r.ui hr.ui n
 
 open Mltwist.UI Mltwist.Lemmas.UI in
